@@ -197,6 +197,50 @@ def word_errors_exact(d, w, inputs_prefix, i=None):
     return None
 
 
+def _word_exact_worker(d, chunk, extra):
+    """One command per (word, polarity, input), so that diagnostics can be attributed to the input: when evaluating the
+    word reports an error on an input, neither polarity may hold there; when it reports none, exactly one holds."""
+    values, i = extra["values"], extra.get("i")
+    bad, ne = [], 0
+    for w in chunk:
+        cmds = []
+        for v in values:
+            cmds.append(drv.run_cmd("?" + w, p=v, i=i, lim=5))
+            cmds.append(drv.run_cmd("!" + w, p=v, i=i, lim=5))
+        rs = d.batch(cmds)
+        for k, v in enumerate(values):
+            rq, rn = rs[2 * k], rs[2 * k + 1]
+            key = "wordx:%s|%s" % (w, v)
+            if rq.crash or rn.crash:
+                c = rq.crash or rn.crash
+                bad.append((key + "|crash", "`?%s`/`!%s` on `%s` died: %s %s" % (w, w, v, c[0], c[1][-400:]), {"w": w, "v": v, "kind": "crash"}))
+                if i is not None:
+                    break
+                continue
+            gq, gn = groups(rq), groups(rn)
+            ne += 2
+            if len(gq) != 1 or len(gn) != 1 or gq[0]["err"] or gn[0]["err"] or gq[0]["odd"] or gn[0]["odd"]:
+                continue
+            a, b = gq[0], gn[0]
+            diag = bool(rq.stderr.strip()) or bool(rn.stderr.strip())
+            if diag and (a["res"] or b["res"]):
+                which = " and ".join(nm for nm, x in (("?" + w, a), ("!" + w, b)) if x["res"])
+                bad.append((key + "|holds-on-error", "on stack <%s> the word `%s` reports an error (%r) and yet `%s` holds" % (
+                    a["in"], w, (rq.stderr or rn.stderr)[:120], which), {"w": w, "v": v, "kind": "holds-on-error"}))
+            if not diag and bool(a["res"]) == bool(b["res"]):
+                bad.append((key + "|exactly-one", "on stack <%s>, without any diagnostic, `?%s` %s and `!%s` %s" % (
+                    a["in"], w, "holds" if a["res"] else "does not hold", w, "holds" if b["res"] else "does not hold"), {"w": w, "v": v, "kind": "exactly-one"}))
+    return {"words": len(chunk), "exec": ne, "bad": bad[:6]}
+
+
+DW_VALUE_LIST = ["", "entry (pos == 0)", "entry (pos == 1)", "entry (pos == 3)", "entry (pos == 1) attribute (pos == 0)", "entry (pos == 1) attribute (pos == 1)",
+                 "entry ?(@AT_location) (pos == 0) @AT_location (pos == 0)", "entry ?(@AT_location) (pos == 0) @AT_location (pos == 0) elem (pos == 0)",
+                 "unit (pos == 0)", "entry (pos == 1) abbrev", "entry (pos == 1) abbrev attribute (pos == 0)", "abbrev (pos == 0)", "symbol (pos == 1)",
+                 "entry (pos == 0) address", "entry (pos == 1) label", "entry (pos == 1) attribute (pos == 0) form", "entry (pos == 1) attribute (pos == 0) label",
+                 "drop 1", 'drop "a"', "drop [1]", "symbol (pos == 1) label", "drop DW_LANG_C", "drop DW_OP_addr", "drop",
+                 "entry (pos == 1) 1", 'entry (pos == 1) "a"', "(|D| D entry (pos == 1) D entry (pos == 3))", "(|D| D entry (pos == 1) attribute (pos == 0) D entry (pos == 1))"]
+
+
 def pred_words(d):
     r = d.cmd("dumpvoc")
     names = set()
@@ -238,6 +282,9 @@ def replay(case):
         try:
             if case.get("file"):
                 d.setup("open id=d1 path=" + drv.hx(case["file"]))
+            if case.get("v") is not None:
+                r = _word_exact_worker(d, [case["w"]], {"values": [case["v"]], "i": case.get("i")})
+                return any(b[2]["kind"] == case["kind"] for b in r["bad"])
             r = _word_worker(d, [case["w"]], {"prefix": case["prefix"], "i": case.get("i")})
             return any(b[2]["kind"] == case["kind"] for b in r["bad"])
         finally:
@@ -282,6 +329,12 @@ def main(ctx):
         for key, what, case in r["bad"]:
             case.update(prefix=wprefix, voc="core")
             ctx.violation(key, what, case)
+    for r in common.pmap(ctx, _word_exact_worker, common.chunks(words, 2), bins["zwdrv"], "core", extra={"values": CORE_VALUES + [""]}, timeout=60):
+        ctx.count("executions", r["exec"])
+        ctx.count("predicate_word_input_pairs", r["exec"] // 2)
+        for key, what, case in r["bad"]:
+            case.update(voc="core")
+            ctx.violation(key, what, case)
     # predicate words and DWARF sub-expressions, full vocabulary, on sample files
     files = ["/repo/tests/bitcount.o", "/repo/tests/nontrivial-types.o"]
     if ctx.tier == "thorough":
@@ -301,6 +354,13 @@ def main(ctx):
             ctx.count("executions", r["exec"])
             for key, what, case in r["bad"]:
                 case.update(prefix=DW_VALUES, voc="full", file=f, i="d1")
+                ctx.violation("%s@%s" % (key, os.path.basename(f)), what, case)
+        for r in common.pmap(ctx, _word_exact_worker, common.chunks(dwwords, 4), bins["zwdrv"], "full", setup=setup,
+                             extra={"values": DW_VALUE_LIST, "i": "d1"}, timeout=120):
+            ctx.count("executions", r["exec"])
+            ctx.count("predicate_word_input_pairs", r["exec"] // 2)
+            for key, what, case in r["bad"]:
+                case.update(voc="full", file=f, i="d1")
                 ctx.violation("%s@%s" % (key, os.path.basename(f)), what, case)
     for f in files:
         setup = ["open id=d1 path=" + drv.hx(f)]
@@ -328,7 +388,8 @@ def main(ctx):
     }
     return ctx.finish("model_checking", cov, [
         "laws are evaluated on the implementation alone; executions that fail hard (API error, e.g. stack underflow) are outside the laws",
-        "for predicate words the 'neither holds' case is accepted only when both polarities printed a diagnostic",
+        "for predicate words every (word, input) pair is also run as its own command, so diagnostics are attributed to the input: a diagnostic means neither polarity may hold, "
+        "no diagnostic means exactly one holds",
     ], replay)
 
 
